@@ -51,6 +51,7 @@ type (
 		pending      map[uint16]*Message
 		pendingQueue []uint16
 		nextID       uint16
+		closeOnce    sync.Once
 	}
 
 	// Message is the message send from broker to client
@@ -206,7 +207,8 @@ func (s *Session) cleanSession() bool {
 }
 
 func (s *Session) close() {
-	close(s.done)
+	// reached from the ending connection and from a CONNECT that discards the session
+	s.closeOnce.Do(func() { close(s.done) })
 }
 
 func (s *Session) doResend() {
